@@ -65,6 +65,26 @@ pub fn add_layer(net: &mut Network, l: &L) {
     }
 }
 
+/// Build the network with PLACEHOLDER activations on its plain dense / convolution / deconvolution layers and
+/// then install the real ones through the public `set_activation` (a second route to the same network).
+pub fn build_via_set_activation(spec: &Net) -> Network {
+    let mut first = spec.clone();
+    for l in first.layers.iter_mut() {
+        match l {
+            L::Dense { act, .. } => *act = if *act == Act::Softmax { Act::Linear } else { Act::Softmax },
+            L::Conv { act, .. } | L::Deconv { act, .. } => *act = if *act == Act::Tanh { Act::Linear } else { Act::Tanh },
+            _ => (),
+        }
+    }
+    let mut net = build(&first);
+    for (i, l) in spec.layers.iter().enumerate() {
+        if let Some(a) = l.act() {
+            net.set_activation(i, lib_act(a));
+        }
+    }
+    net
+}
+
 /// Build the whole network (panics propagate: wrap in util::guard).
 pub fn build(spec: &Net) -> Network {
     let mut net = Network::new(lib_shape(spec.input));
